@@ -22,9 +22,11 @@ package main
 //@ func readNodeWithKnownSize
 //@   mode int
 //@   requires br != nil
+//@   fncall parseNodeFromSection requires arg1 == wantedCid
 //@   noframe
 
 //@ func readNodeFromReaderAtWithOffsetAndSize
 //@   mode int
 //@   requires reader != nil
+//@   fncall parseNodeFromSection requires arg1 == wantedCid
 //@   noframe
